@@ -31,12 +31,21 @@ fn build(c: &Case) -> Argument {
     };
     let (vari, name, unit, trai, scod) = c.extras.clone().unwrap_or((false, None, None, false, 0));
     Argument {
-        type_info: type_to_crate(&RType { kind: c.kind, vari, trai, scod }),
+        type_info: type_to_crate(&RType {
+            kind: c.kind,
+            vari,
+            trai,
+            scod,
+        }),
         name,
         unit,
         fixed_point: c.fixp.map(|(q, off, is64)| FixedPoint {
             quantization: f32::from_bits(q),
-            offset: if is64 { FixedPointValue::I64(off) } else { FixedPointValue::I32(off as i32) },
+            offset: if is64 {
+                FixedPointValue::I64(off)
+            } else {
+                FixedPointValue::I32(off as i32)
+            },
         }),
         value: value_to_crate(vkind, &c.val),
     }
@@ -44,7 +53,8 @@ fn build(c: &Case) -> Argument {
 
 pub fn check(c: &Case) -> CheckResult {
     let arg = build(c);
-    let got = guard(|| arg.to_real_value()).map_err(|p| Violation::from_panic(&format!("to_real_value of {:?}", arg), &p))?;
+    let got = guard(|| arg.to_real_value())
+        .map_err(|p| Violation::from_panic(&format!("to_real_value of {:?}", arg), &p))?;
     let is_fx = matches!(c.kind, RKind::SintFx(_) | RKind::UintFx(_));
     // the value the argument really carries: the model value cut to the variant's width
     let int_val: Option<i128> = match (&c.val, c.vbits) {
@@ -57,10 +67,17 @@ pub fn check(c: &Case) -> CheckResult {
         return Err(viol!(
             "some-for-non-fixed-point",
             "to_real_value returned {:?} although kind={:?} fixed_point={:?} value={:?}",
-            got, c.kind, c.fixp, c.val
+            got,
+            c.kind,
+            c.fixp,
+            c.val
         ));
     }
-    let mut pass = Pass::new(false).class(if is_fx { "fixed-point-kind" } else { "other-kind" });
+    let mut pass = Pass::new(false).class(if is_fx {
+        "fixed-point-kind"
+    } else {
+        "other-kind"
+    });
     if let (true, Some((q, off, is64)), Some(v)) = (is_fx, c.fixp, int_val) {
         let off = if is64 { off } else { off as i32 as i64 };
         let qf = f32::from_bits(q) as f64;
@@ -81,7 +98,9 @@ pub fn check(c: &Case) -> CheckResult {
                 }
                 let nontrivial = off < 0 || qf.fract() != 0.0;
                 pass.nontrivial = nontrivial;
-                pass = pass.class_if(off < 0, "negative-offset").class_if(qf.fract() != 0.0, "fractional-quantization");
+                pass = pass
+                    .class_if(off < 0, "negative-offset")
+                    .class_if(qf.fract() != 0.0, "fractional-quantization");
             } else {
                 pass = pass.class("outside-window");
             }
@@ -95,7 +114,14 @@ pub fn check(c: &Case) -> CheckResult {
 }
 
 fn nice_q() -> impl Strategy<Value = u32> {
-    prop::sample::select(vec![1.0f32, 0.5, 0.01, 0.1, 2.0, 10.0, 0.25, 1.5, 100.0, 0.001, 3.0, 1e-9, 65536.0]).prop_map(|f| f.to_bits())
+    // round quantizations and their neighbours in f32 (one or two units in the last place above / below)
+    (
+        prop::sample::select(vec![
+            1.0f32, 0.5, 0.01, 0.1, 2.0, 10.0, 0.25, 1.5, 100.0, 0.001, 3.0, 1e-9, 65536.0,
+        ]),
+        prop_oneof![6 => Just(0i32), 1 => Just(-1i32), 1 => Just(1i32), 1 => -3i32..=3],
+    )
+        .prop_map(|(f, d)| (f.to_bits() as i64 + d as i64) as u32)
 }
 fn offsets() -> impl Strategy<Value = i64> {
     prop_oneof![
@@ -106,20 +132,44 @@ fn offsets() -> impl Strategy<Value = i64> {
     ]
 }
 pub fn strategy() -> impl Strategy<Value = Case> {
-    let fx_kind = prop::sample::select(vec![RKind::SintFx(32), RKind::SintFx(64), RKind::UintFx(32), RKind::UintFx(64)]);
-    let fixed = (fx_kind, prop_oneof![3 => nice_q(), 2 => g::f32_bits()], offsets(), any::<bool>(), any::<bool>(), any::<u8>()).prop_flat_map(
-        |(kind, q, off, matched, some, sel)| {
+    let fx_kind = prop::sample::select(vec![
+        RKind::SintFx(32),
+        RKind::SintFx(64),
+        RKind::UintFx(32),
+        RKind::UintFx(64),
+    ]);
+    let fixed = (
+        fx_kind,
+        prop_oneof![3 => nice_q(), 2 => g::f32_bits()],
+        offsets(),
+        any::<bool>(),
+        any::<bool>(),
+        any::<u8>(),
+    )
+        .prop_flat_map(|(kind, q, off, matched, some, sel)| {
             let bits = match kind {
                 RKind::SintFx(b) | RKind::UintFx(b) => b,
                 _ => 32,
             };
             let is64 = if matched { bits == 64 } else { sel & 1 == 0 };
-            let vbits = if matched { bits } else { [8u8, 16, 32, 64, 128][(sel as usize >> 1) % 5] };
-            let signed = if matched { matches!(kind, RKind::SintFx(_)) } else { sel & 0x40 != 0 };
-            let val = if signed {
-                prop_oneof![3 => (-100_000i128..100_000).boxed(), 3 => g::sint_value(vbits)].prop_map(RVal::I).boxed()
+            let vbits = if matched {
+                bits
             } else {
-                prop_oneof![3 => (0u128..100_000).boxed(), 3 => g::uint_value(vbits)].prop_map(RVal::U).boxed()
+                [8u8, 16, 32, 64, 128][(sel as usize >> 1) % 5]
+            };
+            let signed = if matched {
+                matches!(kind, RKind::SintFx(_))
+            } else {
+                sel & 0x40 != 0
+            };
+            let val = if signed {
+                prop_oneof![3 => (-100_000i128..100_000).boxed(), 3 => g::sint_value(vbits)]
+                    .prop_map(RVal::I)
+                    .boxed()
+            } else {
+                prop_oneof![3 => (0u128..100_000).boxed(), 3 => g::uint_value(vbits)]
+                    .prop_map(RVal::U)
+                    .boxed()
             };
             // keep small values inside the variant's range
             val.prop_map(move |v| {
@@ -128,49 +178,136 @@ pub fn strategy() -> impl Strategy<Value = Case> {
                         let sh = 128 - vbits as u32;
                         RVal::I((x << sh) >> sh)
                     }
-                    RVal::U(x) => RVal::U(if vbits == 128 { x } else { x & ((1u128 << vbits) - 1) }),
+                    RVal::U(x) => RVal::U(if vbits == 128 {
+                        x
+                    } else {
+                        x & ((1u128 << vbits) - 1)
+                    }),
                     o => o,
                 };
-                Case { kind, fixp: if some || matched { Some((q, off, is64)) } else { None }, vbits, val: v, extras: None }
+                Case {
+                    kind,
+                    fixp: if some || matched {
+                        Some((q, off, is64))
+                    } else {
+                        None
+                    },
+                    vbits,
+                    val: v,
+                    extras: None,
+                }
+            })
+        });
+    let other = (g::kind(), any::<bool>(), g::f32_bits(), offsets()).prop_flat_map(
+        |(kind, with_fp, q, off)| {
+            g::value_for(kind, 40).prop_map(move |val| {
+                let vbits = match kind {
+                    RKind::Sint(b)
+                    | RKind::Uint(b)
+                    | RKind::SintFx(b)
+                    | RKind::UintFx(b)
+                    | RKind::Float(b) => b,
+                    _ => 8,
+                };
+                Case {
+                    kind,
+                    fixp: if with_fp || matches!(kind, RKind::SintFx(_) | RKind::UintFx(_)) {
+                        Some((q, off, vbits == 64))
+                    } else {
+                        None
+                    },
+                    vbits,
+                    val,
+                    extras: None,
+                }
             })
         },
     );
-    let other = (g::kind(), any::<bool>(), g::f32_bits(), offsets()).prop_flat_map(|(kind, with_fp, q, off)| {
-        g::value_for(kind, 40).prop_map(move |val| {
-            let vbits = match kind {
-                RKind::Sint(b) | RKind::Uint(b) | RKind::SintFx(b) | RKind::UintFx(b) | RKind::Float(b) => b,
-                _ => 8,
-            };
-            Case { kind, fixp: if with_fp || matches!(kind, RKind::SintFx(_) | RKind::UintFx(_)) { Some((q, off, vbits == 64)) } else { None }, vbits, val, extras: None }
-        })
-    });
     // fixed-point kind carrying a non-integer value
-    let odd = (prop::sample::select(vec![RKind::SintFx(32), RKind::UintFx(64)]), g::f32_bits(), offsets(), g::kind()).prop_flat_map(|(kind, q, off, vk)| {
-        g::value_for(vk, 20).prop_map(move |val| Case { kind, fixp: Some((q, off, false)), vbits: 8, val, extras: None })
-    });
+    let odd = (
+        prop::sample::select(vec![RKind::SintFx(32), RKind::UintFx(64)]),
+        g::f32_bits(),
+        offsets(),
+        g::kind(),
+    )
+        .prop_flat_map(|(kind, q, off, vk)| {
+            g::value_for(vk, 20).prop_map(move |val| Case {
+                kind,
+                fixp: Some((q, off, false)),
+                vbits: 8,
+                val,
+                extras: None,
+            })
+        });
     // every part of the argument drawn independently of the others: any kind x fixed-point data present or not x a
     // value of any variant (also one that contradicts the kind)
-    let independent = (g::kind(), g::kind(), prop::option::weighted(0.7, (prop_oneof![nice_q(), g::f32_bits()], offsets(), any::<bool>())), prop::sample::select(vec![8u8, 16, 32, 64, 128])).prop_flat_map(|(kind, vk, fixp, vb)| {
-        g::value_for(vk, 20).prop_map(move |val| {
-            let vbits = match vk {
-                RKind::Sint(b) | RKind::Uint(b) | RKind::SintFx(b) | RKind::UintFx(b) => b,
-                _ => vb,
-            };
-            Case { kind, fixp, vbits, val, extras: None }
-        })
-    });
+    let independent = (
+        g::kind(),
+        g::kind(),
+        prop::option::weighted(
+            0.7,
+            (
+                prop_oneof![nice_q(), g::f32_bits()],
+                offsets(),
+                any::<bool>(),
+            ),
+        ),
+        prop::sample::select(vec![8u8, 16, 32, 64, 128]),
+    )
+        .prop_flat_map(|(kind, vk, fixp, vb)| {
+            g::value_for(vk, 20).prop_map(move |val| {
+                let vbits = match vk {
+                    RKind::Sint(b) | RKind::Uint(b) | RKind::SintFx(b) | RKind::UintFx(b) => b,
+                    _ => vb,
+                };
+                Case {
+                    kind,
+                    fixp,
+                    vbits,
+                    val,
+                    extras: None,
+                }
+            })
+        });
     let base = prop_oneof![8 => fixed, 2 => other, 1 => odd, 2 => window_edges(), 1 => just_below_integer(), 2 => independent];
     // name / unit / flags / coding have nothing to do with the conversion: any combination, consistent or not
-    (base, prop::option::weighted(0.5, (any::<bool>(), prop::option::of(g::short_text(8)), prop::option::of(g::short_text(8)), any::<bool>(), 0u8..8))).prop_map(|(mut c, extras)| {
-        c.extras = extras;
-        c
-    })
+    (
+        base,
+        prop::option::weighted(
+            0.5,
+            (
+                any::<bool>(),
+                prop::option::of(prop_oneof![3 => g::short_text(8), 1 => g::text(80)]),
+                prop::option::of(prop_oneof![3 => g::short_text(8), 1 => g::text(80)]),
+                any::<bool>(),
+                0u8..8,
+            ),
+        ),
+    )
+        .prop_map(|(mut c, extras)| {
+            c.extras = extras;
+            c
+        })
 }
 
 /// products that land exactly on / next to the edges of the window the statement fixes (0, 2^31, 2^32, 2^53, 2^63, 2^64):
 /// value = target / 2^k, quantization = 2^k, offsets that cross or just stay inside the edge
 fn window_edges() -> impl Strategy<Value = Case> {
-    let deltas = vec![0i128, 1, 2, 255, 1024, 2048, 32767, 32768, 65536, (1 << 31) - 1, 1 << 31, (1 << 31) + 128, 1 << 32];
+    let deltas = vec![
+        0i128,
+        1,
+        2,
+        255,
+        1024,
+        2048,
+        32767,
+        32768,
+        65536,
+        (1 << 31) - 1,
+        1 << 31,
+        (1 << 31) + 128,
+        1 << 32,
+    ];
     (
         prop::sample::select(vec![0u32, 31, 32, 52, 53, 62, 63, 64]),
         prop::sample::select(deltas.clone()),
@@ -228,14 +365,34 @@ fn just_below_integer() -> impl Strategy<Value = Case> {
         }
         t
     });
-    (prop::sample::select(table.clone()), -1000i64..1000, any::<bool>(), any::<bool>()).prop_map(|((v, m, k), off, is64, signed)| {
-        let q = ((m as f64) * (2f64).powi(-(k as i32))) as f32;
-        let vbits: u8 = if v < (1 << 32) && !is64 { 32 } else { 64 };
-        let fits_signed = (v as u128) < (1u128 << (vbits - 1));
-        let kind = if signed && fits_signed { RKind::SintFx(vbits) } else { RKind::UintFx(vbits) };
-        let val = if matches!(kind, RKind::SintFx(_)) { RVal::I(v as i128) } else { RVal::U(v as u128) };
-        Case { kind, fixp: Some((q.to_bits(), off, is64)), vbits, val, extras: None }
-    })
+    (
+        prop::sample::select(table.clone()),
+        -1000i64..1000,
+        any::<bool>(),
+        any::<bool>(),
+    )
+        .prop_map(|((v, m, k), off, is64, signed)| {
+            let q = ((m as f64) * (2f64).powi(-(k as i32))) as f32;
+            let vbits: u8 = if v < (1 << 32) && !is64 { 32 } else { 64 };
+            let fits_signed = (v as u128) < (1u128 << (vbits - 1));
+            let kind = if signed && fits_signed {
+                RKind::SintFx(vbits)
+            } else {
+                RKind::UintFx(vbits)
+            };
+            let val = if matches!(kind, RKind::SintFx(_)) {
+                RVal::I(v as i128)
+            } else {
+                RVal::U(v as u128)
+            };
+            Case {
+                kind,
+                fixp: Some((q.to_bits(), off, is64)),
+                vbits,
+                val,
+                extras: None,
+            }
+        })
 }
 
 pub fn run(run: &Run) {
@@ -248,7 +405,13 @@ pub fn run(run: &Run) {
     );
     run.assume("reference: trunc((value as f64) * (quantization as f64)) + offset in i128, asserted only inside the window the statement fixes (product finite and >= 0, sum in 0..2^63, value an 8..64-bit integer); outside it only 'no panic' and 'Some implies fixed-point kind with data and integer value'");
     run.regressions(&replay);
-    run.random("random", run.cases(4_000_000, 60_000_000), 0.15, strategy, check);
+    run.random(
+        "random",
+        run.cases(4_000_000, 60_000_000),
+        0.15,
+        strategy,
+        check,
+    );
 }
 
 pub fn replay(_section: &str, case: &Json) -> Option<CheckResult> {
